@@ -340,8 +340,18 @@ def run(ck):
     t1 = [norm(n.ast) for n in gq.nodes if n.kind == 'test' and '_stop_data' in norm(n.ast)]
     gz = ck.cfg(osa.fid, 'M0')
     t2 = [norm(n.ast) for n in gz.nodes if n.kind == 'test' and '_stop_data' in norm(n.ast)]
-    ok = len(t1) == 1 and len(t2) == 1 and \
-        t1[0].replace('!=', '==') == t2[0] and '!=' in t1[0] and '==' in t2[0]
+    def _mode_fact(g_):
+        """canonical (text, polarity) of the conjunct that compares the control coroutine"""
+        from sa.cfg import canon_fact as _cf, decompose as _dc
+        for n_ in g_.nodes:
+            if n_.kind == 'test' and '_stop_data' in norm(n_.ast):
+                for e_, p_ in _dc(n_.ast, True):
+                    if '_ctrl_coro' in norm(e_) and not isinstance(e_, ast.BoolOp):
+                        return _cf(e_, p_)
+        return None
+    f1, f2 = _mode_fact(gq), _mode_fact(gz)
+    ok = len(t1) == 1 and len(t2) == 1 and f1 is not None and f2 is not None and \
+        f1[0] == f2[0] and f1[1] != f2[1] and f2[1] is True and '_ctrl_start' in f2[0]
     ck.ob(R8, "OutputAsync stop / stop_async mode tests", ok,
           f"`{t1[0] if t1 else None}` and `{t2[0] if t2 else None}` are complementary: stop_data "
           f"is processed exactly once" if ok else
@@ -650,9 +660,16 @@ def _own_ctrl_cancel(ck, R, fi, x):
                                           for a in walk_shallow(n.ast)))
         # from the creation, every path to the exit or to the next creation awaits the task,
         # except through the branch where the task is known to be done
-        done = [n for n in g.nodes if n.kind == 'branch' and not n.polarity and
-                norm(n.test.ast).replace(' ', '').replace('(', '').replace(')', '')
-                in (f'{v}andnot{v}.done', f'not{v}.done')]
+        from sa.cfg import canon_fact as _cfc
+
+        def _nothing_to_await(t):
+            """false outcome of this test => the task is absent or done"""
+            parts = t.values if isinstance(t, ast.BoolOp) and isinstance(t.op, ast.And) else [t]
+            live = {_cfc(ast.parse(x, mode='eval').body, True) for x in (v, f'{v} is not None')}
+            notdone = _cfc(ast.parse(f'{v}.done()', mode='eval').body, False)
+            cf = [_cfc(p_, True) for p_ in parts]
+            return notdone in cf and all(c_ == notdone or c_ in live for c_ in cf)
+        done = [n for n in g.nodes if n.kind == 'branch' and not n.polarity and _nothing_to_await(n.test.ast)]
         wit = g.path_avoiding(cr, [g.exit, cr], avoid=aw + done, start_successors_only=True)
         ok = wit is None and bool(aw)
     ck.ob(R, f"{fi.fid} :: {norm1(x)}", ok,
